@@ -414,6 +414,9 @@ class ConfigParser(object):
       raise ConfigParserDuplicateEntryException(e.message)
     except configparser.Error as e:
       raise ConfigParserException("Could not parse potential definition: {}".format(e.message))
+    except UnicodeDecodeError as e:
+      # a file in another encoding (or no text file at all): decoding fails while the lines are being read
+      raise ConfigParserException("Could not read potential definition, it is not text in the expected encoding: {}".format(e))
 
     # Process overrides
     for override in overrides:
